@@ -172,9 +172,9 @@ func byteStrings(r *rand.Rand) []c09Str {
 
 func (p *c09) NumCases(tier string) int {
 	if tier == "thorough" {
-		return 6000
+		return 8000
 	}
-	return 260
+	return 800
 }
 
 var c09Item = val.Item{"a": val.Str("x"), "b": val.Num("2"), "c": val.List(val.Str("p"), val.Num("1")), "d": val.Map(map[string]val.V{"x": val.Str("y")}), "e": val.SS("s1", "s2"), "f": val.Bool(true)}
